@@ -255,10 +255,7 @@ def run(ctx, prog):
             short = cat.short(cls)
             regs = cat.registrations(prog, cls)
             if not regs:
-                if short == 'navierstokes_4d_compressible_powerlaw':
-                    regs = powerlaw_registrations(ctx, prog, cls, scalar)
-                elif short in cat.FIXTURES or short == 'masa_uninit':
-                    continue
+                continue
             names = [r['name'] for r in regs]
             paths_ = ['.'.join(r['path']) if r['path'] else None for r in regs]
             n_regs += len(regs)
@@ -266,11 +263,18 @@ def run(ctx, prog):
                 continue
             dupn = sorted(set(n for n in names if names.count(n) > 1))
             dupp = sorted(set(p for p in paths_ if paths_.count(p) > 1))
-            ctx.ob('C11.S2', '%s|injective|%s' % (short, sc), not dupn and not dupp and None not in names and None not in paths_, regs[0]['where'] if regs and 'where' in regs[0] else '',
+            named = [n for n in names if n is not None]
+            dupn = sorted(set(n for n in named if named.count(n) > 1))
+            ctx.ob('C11.S2', '%s|injective|%s' % (short, sc), not dupn and not dupp and None not in paths_ and (len(named) in (0, len(names))), regs[0]['where'] if regs and 'where' in regs[0] else '',
                    '%s registers names %s / members %s more than once (or a non-literal name / non-member address)' % (short, dupn, dupp), sample='%s: %d names, %d members' % (short, len(set(names)), len(set(paths_))))
             for r in regs:
+                if r['name'] is None:
+                    # name assembled at run time (power-law foreach_parameter): injectivity of the addresses is checked above
+                    ctx.ob('C11.S2', '%s|member-address|%s|%s' % (short, '.'.join(r['path'][1:]) if r['path'] else '?', sc), r['path'] is not None, r.get('where') or '',
+                           '%s registers storage that is not a member of the instance' % short, nontrivial=False)
+                    continue
                 want = r['name']
-                got = r.get('expect') or (r['path'][-1] if r['path'] else None)
+                got = r['path'][-1] if r['path'] else None
                 ok = r['path'] is not None and (r['path'][0] == 'this') and got == want
                 ctx.ob('C11.S2', '%s|name-true|%s|%s' % (short, r['name'], sc), ok, r.get('where') or (r['node'].get('l') if r.get('node') else ''),
                        '%s registers member `%s` under the name "%s": masa_set_param("%s") would change a member the evaluators do not read as %s' % (
@@ -290,22 +294,3 @@ def run(ctx, prog):
     ctx.floor('default_obligations', k4[0], 1500)
 
 
-def powerlaw_registrations(ctx, prog, cls, scalar):
-    """the power-law class registers through foreach_parameter; recover (name, member path) pairs by forward
-    substitution of the constructor with register_var opaque: names are built by ostringstream (opaque to us), so
-    name-trueness is checked on the X-macro instead: each functor call passes (name-expression, this->PRE##SUF)"""
-    from .c14 import ctor_of
-    ctor = ctor_of(prog, cls)
-    E = terms.Evaluator(prog, dyn_class=cls, scalar=scalar, opaque=('register_var', 'register_vec', 'init_var'))
-    outs = E.run(ctor)
-    regs = []
-    for o in outs:
-        for e in o.events:
-            if e[0] == 'call' and e[1][0].endswith('::register_var'):
-                args = e[1][1]
-                addr = args[1]
-                path = None
-                if addr[0] == 'addr' and addr[1][0] == 'sym':
-                    path = ['this'] + addr[1][1].split('.')
-                regs.append({'name': 'powerlaw#%d' % len(regs), 'path': path, 'node': None, 'where': e[2], 'expect': 'powerlaw#%d' % len(regs)})
-    return regs
